@@ -303,16 +303,38 @@ fn cli(ctx: &mut Ctx, case: &StaticCase, rng: &mut Rng, focus: Option<&Value>) {
         return;
     }
     let problems = ["DC-CO", "DC-PR", "DS-PR", "DC-SST", "DS-SST", "DC-STG", "DS-STG", "DC-ID", "DS-ID", "DC-ST", "DS-ST"];
-    let prob = focus.and_then(|f| f.get("problem")).and_then(|p| p.as_str()).map(|s| s.to_string()).unwrap_or_else(|| rng.pick(&problems).to_string());
-    let arg = focus.and_then(|f| f.get("argument")).and_then(|a| a.as_u64()).map(|a| a as usize).unwrap_or_else(|| 1 + rng.below(case.abs.n));
+    // the stage problems have their own encoder table in the binary: always try one of them too
+    let probs: Vec<String> = match focus.and_then(|f| f.get("problem")).and_then(|p| p.as_str()) {
+        Some(p) => vec![p.to_string()],
+        None => vec![rng.pick(&["DC-STG", "DS-STG"]).to_string(), rng.pick(&problems).to_string()],
+    };
+    for prob in probs {
+        let arg = focus.and_then(|f| f.get("argument")).and_then(|a| a.as_u64()).map(|a| a as usize).unwrap_or_else(|| 1 + rng.below(case.abs.n));
+        cli_one(ctx, case, &file, &prob, arg);
+    }
+}
+
+fn cli_one(ctx: &mut Ctx, case: &StaticCase, file: &std::path::Path, prob: &str, arg: usize) {
+    let prob = prob.to_string();
     let bin = ctx.repo_bin_dir.join("crustabri");
     let msat_p = msat(ctx);
     let mut first: Option<(String, String)> = None;
+    let expected_line: Option<String> = crate::refsem::RefSem::new(&case.abs).ok().and_then(|rs| {
+        let (q, s) = prob.split_once('-')?;
+        let sem = Sem::from_name(s)?;
+        let m = 1u32 << (arg - 1);
+        let b = if q == "DC" { rs.cred(sem, m) } else { rs.skep(sem, m) };
+        Some(if b { "YES".to_string() } else { "NO".to_string() })
+    });
+    let exp_too_costly = crate::props::static_eval::exp_cost(&case.abs) > 2000;
     for enc in [None, Some("aux_var"), Some("exp"), Some("hybrid")] {
         for ext in [None, Some(msat_p.as_str()), Some("kissat")] {
             for cert in [false, true] {
                 if ext.is_some() && cert && enc.is_some() {
                     continue; // keep the number of processes moderate
+                }
+                if enc == Some("exp") && exp_too_costly {
+                    continue;
                 }
                 let mut cmd = std::process::Command::new(&bin);
                 cmd.env("RUST_BACKTRACE", "0");
@@ -349,6 +371,16 @@ fn cli(ctx: &mut Ctx, case: &StaticCase, rng: &mut Rng, focus: Option<&Value>) {
                         &json!({"sub": "cli", "case": case.to_json()}),
                     );
                     return;
+                }
+                if let Some(e) = &expected_line {
+                    if *e != status {
+                        ctx.violation(
+                            &format!("C06/cli-status-wrong-under-configuration/{}", prob),
+                            json!({"problem": prob, "argument": arg, "configuration": cfg, "status": status, "expected": e}),
+                            &json!({"sub": "cli", "case": case.to_json()}),
+                        );
+                        return;
+                    }
                 }
                 match &first {
                     None => first = Some((status, cfg)),
@@ -421,7 +453,9 @@ pub fn run(ctx: &mut Ctx) {
         ("order", "union", if q { 500 } else { 12_000 }),
         ("order", "lattice", if q { 400 } else { 10_000 }),
         ("order", "dup", if q { 150 } else { 4_000 }),
-        ("cli", "er-small", if q { 48 } else { 1_000 }),
+        ("cli", "er-small", if q { 24 } else { 400 }),
+        ("cli", "union", if q { 40 } else { 600 }),
+        ("cli", "lattice", if q { 40 } else { 600 }),
     ];
     let mut gi = 0u64;
     for (mode, family, count) in schedule {
